@@ -22,6 +22,10 @@ func main() {
 	findings := flag.String("findings", "/verif/known_findings.txt", "known findings file")
 	facts := flag.String("facts", "", "debug: dump branch facts for the named function")
 	list := flag.Bool("list", false, "list registered properties")
+	inventory := flag.String("inventory", "", "debug: comma-separated entry points; print the reachable panic-site inventory")
+	stop := flag.String("stop", "", "debug: comma-separated functions not to descend into (with -inventory)")
+	writers := flag.String("writers", "", "debug: list write sites of field pkg.T.f")
+	callers := flag.String("callers", "", "debug: list references to the named function")
 	manifest := flag.String("manifest", "", "print MANIFEST.json for the given properties.jsonl")
 	grep := flag.String("fn", "", "debug: list functions whose name contains this")
 	flag.Parse()
@@ -55,6 +59,36 @@ func main() {
 			if strings.Contains(core.FnName(f), *grep) {
 				fmt.Println(core.FnName(f))
 			}
+		}
+		return
+	}
+	if *inventory != "" {
+		var st []string
+		if *stop != "" {
+			st = strings.Split(*stop, ",")
+		}
+		fmt.Print(core.DumpInventory(p, strings.Split(*inventory, ","), st))
+		return
+	}
+	if *writers != "" {
+		ws, err := p.FieldWriters(*writers)
+		if err != nil {
+			fmt.Fprintln(os.Stderr, err)
+			os.Exit(2)
+		}
+		for _, w := range ws {
+			fmt.Printf("%s\t%s\t%s\t%s\n", p.Pos(core.InstrPos(w.In)), w.Kind, w.Fn, core.DescribeInstr(w.In))
+		}
+		return
+	}
+	if *callers != "" {
+		fn := p.Fn(*callers)
+		if fn == nil {
+			fmt.Fprintln(os.Stderr, "no such function")
+			os.Exit(2)
+		}
+		for _, r := range p.FuncRefs(fn) {
+			fmt.Printf("%s\t%s\t%s\n", p.Pos(core.InstrPos(r.In)), r.Kind, r.Fn)
 		}
 		return
 	}
